@@ -428,6 +428,10 @@ def gen_wf(rng):
             c['vars'][gnames[0]] = []        # shadows a global
         pool = gnames + list(c['vars'])
         c['uses'] = sorted(set(rng.sample(pool, rng.randint(0, min(2, len(pool))))))
+        # some integer-valued variables are used only as an ARRAY INDEX (%(arr)s[%(u)s]); removing such a variable
+        # must be rejected exactly like removing one that is referenced directly
+        c['idx_uses'] = [u for u in c['uses']
+                         if (c['vars'].get(u) == [] or (u not in c['vars'] and gvars.get(u) == [])) and rng.random() < 0.35]
         c['opts'] = copy.deepcopy(rng.choice(OPTION_SETS))
     return {'gvars': gvars, 'comps': comps}
 
@@ -440,7 +444,8 @@ def render_comp(c):
     """structured component -> its FlowIR dictionary"""
     refs = ['stage%d.%s:ref' % r for r in c['refs']]
     d = {'name': c['name'], 'stage': c['stage'],
-         'command': {'executable': 'echo', 'arguments': ' '.join(refs + ['%%(%s)s' % u for u in c['uses']])},
+         'command': {'executable': 'echo', 'arguments': ' '.join(
+             refs + [('%%(arr)s[%%(%s)s]' % u) if u in c.get('idx_uses', []) else '%%(%s)s' % u for u in c['uses']])},
          'references': refs}
     if c['vars']:
         d['variables'] = {k: var_value(v, 3) for k, v in c['vars'].items()}
@@ -454,7 +459,9 @@ def render_comp(c):
 
 
 def render(w):
-    return {'variables': {'default': {'global': {k: var_value(v, 5) for k, v in w['gvars'].items()}}},
+    gv = {k: var_value(v, 5) for k, v in w['gvars'].items()}
+    gv['arr'] = 'e0 e1 e2 e3 e4 e5 e6 e7'
+    return {'variables': {'default': {'global': gv}},
             'platforms': ['default'],
             'components': [c['doc'] if 'doc' in c else render_comp(c) for c in w['comps']]}
 
